@@ -3,29 +3,50 @@
 #include "x_b64_alphabets.h"
 #include "contracts/C11_encoding.h"
 int verif_exc; size_t g_vk;
-int g_url; size_t g_blk; uint8_t g_b0, g_b1, g_b2, g_c0, g_c1, g_c2, g_c3, g_l2, g_l3; size_t g_wit, g_k, g_q, g_i; char g_ch;
+int g_url; size_t g_blk, g_len; uint8_t g_b0, g_b1, g_b2, g_c0, g_c1, g_c2, g_c3, g_l2, g_l3, g_s0, g_s1, g_s2, g_s3; size_t g_wit, g_k, g_q, g_i; char g_ch, g_e0, g_e1, g_e2, g_e3;
 #include "x_encoding.c"
 
 /* which alphabet argument: 0 = nullptr (the default argument), 1 = DEFAULT_ALPHABET, 2 = URLSAFE_ALPHABET */
 #if ALPHA == 0
 #define ALPHA_PTR ((const char*)0)
+#define URL 0
 #elif ALPHA == 1
 #define ALPHA_PTR DEFAULT_ALPHABET
-#else
+#define URL 0
+#elif ALPHA == 2
 #define ALPHA_PTR URLSAFE_ALPHABET
+#define URL 1
+#else      /* symbolic choice among the three */
+#define ALPHA_PTR (in_alpha == 0 ? (const char*)0 : in_alpha == 1 ? DEFAULT_ALPHABET : URLSAFE_ALPHABET)
+#define URL (in_alpha >= 2)
 #endif
-#define URL (ALPHA == 2)
+
+/* ---- loop bodies / tail branches against their loop-free contracts ---- */
+#define H_ENC_PIECE(name) void h_##name(void) { \
+  vstr* ret; const uint8_t* data; size_t in_off, in_len, in_rsize; uint8_t in_s0, in_s1, in_s2; unsigned in_alpha; \
+  g_len = in_len; g_s0 = in_s0; g_s1 = in_s1; g_s2 = in_s2; g_url = URL; \
+  const char* alpha = ALPHA_PTR; \
+  name(ret, data, in_off, alpha ? alpha : DEFAULT_ALPHABET); \
+  VERIF_REACH(); }
+H_ENC_PIECE(base64_encode_block) H_ENC_PIECE(base64_encode_tail2) H_ENC_PIECE(base64_encode_tail1)
+
+void h_base64_decode_block(void) {
+  vstr* ret; const uint8_t* data; const char* table; size_t in_off, in_end, in_len; uint8_t in_s0, in_s1, in_s2, in_s3; unsigned in_alpha;
+  g_len = in_len; g_s0 = in_s0; g_s1 = in_s1; g_s2 = in_s2; g_s3 = in_s3; g_url = URL;
+  base64_decode_block(ret, data, in_off, in_end, table);
+  VERIF_REACH();
+}
 
 void h_base64_encode(void) {
-  vstr* ret; const void* data; size_t in_size, in_blk; uint8_t in_b0, in_b1, in_b2;
-  g_blk = in_blk; g_b0 = in_b0; g_b1 = in_b1; g_b2 = in_b2; g_url = URL;
+  vstr* ret; const void* data; size_t in_size, in_blk; uint8_t in_b0, in_b1, in_b2; unsigned in_alpha; char in_e0, in_e1, in_e2, in_e3;
+  g_blk = in_blk; g_b0 = in_b0; g_b1 = in_b1; g_b2 = in_b2; g_url = URL; g_e0 = in_e0; g_e1 = in_e1; g_e2 = in_e2; g_e3 = in_e3; g_len = in_size; g_q = in_size / 3;
   base64_encode(ret, data, in_size, ALPHA_PTR);
   VERIF_REACH();
 }
 
 void h_base64_decode(void) {
-  vstr* ret; const void* data; size_t in_size, in_blk; uint8_t in_c0, in_c1, in_c2, in_c3, in_l2, in_l3;
-  g_blk = in_blk; g_c0 = in_c0; g_c1 = in_c1; g_c2 = in_c2; g_c3 = in_c3; g_l2 = in_l2; g_l3 = in_l3; g_url = URL;
+  vstr* ret; const void* data; size_t in_size, in_blk; uint8_t in_c0, in_c1, in_c2, in_c3, in_l2, in_l3; unsigned in_alpha;
+  g_blk = in_blk; g_c0 = in_c0; g_c1 = in_c1; g_c2 = in_c2; g_c3 = in_c3; g_l2 = in_l2; g_l3 = in_l3; g_url = URL; g_len = in_size;
   base64_decode(ret, data, in_size, ALPHA_PTR);
   VERIF_REACH();
 }
@@ -67,16 +88,23 @@ static vstr* fresh_vstr(size_t cap) {
  *     (the decoder's contract: an exception names a block inside the text) ==> no exception;
  *   - the result has |x| octets and octets 3k..3k+2 are those of x. */
 void l_b64_roundtrip(void) {
-  size_t in_size, in_blk;
+  size_t in_size, in_blk; unsigned in_alpha;
   __CPROVER_assume(in_size <= LEMMA_MAX && in_blk <= LEMMA_MAX);
   uint8_t* x = malloc(in_size);
   __CPROVER_assume(x != 0);
   vstr* enc = fresh_vstr(2 * in_size + 4);
   vstr* dec = fresh_vstr(2 * in_size + 4);
   verif_exc = 0; g_url = URL; g_blk = in_blk;
+  g_q = in_size / 3;
   if (3 * in_blk + 0 < in_size) g_b0 = x[3 * in_blk + 0];
   if (3 * in_blk + 1 < in_size) g_b1 = x[3 * in_blk + 1];
   if (3 * in_blk + 2 < in_size) g_b2 = x[3 * in_blk + 2];
+  if (3 * in_blk < in_size) {      /* the encoder's contract defines g_e* as the RFC characters of the group */
+    size_t n_ = in_size - 3 * in_blk < 3 ? in_size - 3 * in_blk : 3;
+    g_e0 = B64_ENC0(g_b0, g_b1, g_b2, n_, g_url); g_e1 = B64_ENC1(g_b0, g_b1, g_b2, n_, g_url);
+    g_e2 = B64_ENC2(g_b0, g_b1, g_b2, n_, g_url); g_e3 = B64_ENC3(g_b0, g_b1, g_b2, n_, g_url);
+  }
+  g_len = in_size;
   base64_encode(enc, x, in_size, ALPHA_PTR);
   size_t n = enc->size;
   const uint8_t* e = (const uint8_t*)enc->data;
@@ -88,6 +116,7 @@ void l_b64_roundtrip(void) {
   /* the last two characters of the text belong to the last group; the encoder's contract speaks about ONE group, so the
    * length part of the round trip is asked at the last group (in_blk == last), the content part at any group */
   if (n >= 2) { g_l2 = e[n - 2]; g_l3 = e[n - 1]; }
+  g_len = n;
   base64_decode(dec, e, n, ALPHA_PTR);
   __CPROVER_assert(verif_exc == 0 || verif_exc == EXC_invalid_argument, "only invalid_argument");
   __CPROVER_assert(verif_exc == 0 || ((g_wit & 3) == 0 && g_wit < n), "an exception names a block of the text");
